@@ -14,32 +14,94 @@ type MessageHandlerFunc func(client *Client, topic string, pkt *pkts1.Publish)
 type messageHandler struct {
 	route    []string
 	callback MessageHandlerFunc
+	// The fields below are guarded by messageHandlers.mu.
+	// seq orders the handlers by the time they were installed.
+	seq uint64
+	// previous is the handler which this one replaced (nil if none).
+	previous *messageHandler
+	// revoked is set when the subscription failed or was unsubscribed.
+	revoked bool
 }
 
+// messageHandlers holds the callback of every subscribed topic filter.
+//
+// Subscribe and Unsubscribe calls on one filter can be in progress at the same
+// time and their acknowledgements can arrive in any order. Therefore
+// a callback is installed when its Subscribe call starts (push) and it is
+// withdrawn when the subscription fails (revoke) or when an Unsubscribe which
+// started after it is acknowledged (revokeUpTo). A withdrawn callback gives
+// way to the most recent callback installed before it which has not been
+// withdrawn itself; a callback installed later is never affected.
 type messageHandlers struct {
 	handlers sync.Map
+	mu       sync.Mutex
+	seq      uint64
 }
 
-func (mhs *messageHandlers) store(route []string, callback MessageHandlerFunc) {
-	mhs.handlers.Store(join(route), &messageHandler{
+// push installs a callback for the route and returns its handler.
+func (mhs *messageHandlers) push(route []string, callback MessageHandlerFunc) *messageHandler {
+	mhs.mu.Lock()
+	defer mhs.mu.Unlock()
+	mhs.seq++
+	mh := &messageHandler{
 		route:    route,
 		callback: callback,
-	})
-}
-
-// swap stores a callback for the route and returns the previous one (nil if
-// there was none).
-func (mhs *messageHandlers) swap(route []string, callback MessageHandlerFunc) *messageHandler {
-	previous, _ := mhs.handlers.Load(join(route))
-	mhs.store(route, callback)
-	if previous == nil {
-		return nil
+		seq:      mhs.seq,
 	}
-	return previous.(*messageHandler)
+	if previous, ok := mhs.handlers.Load(join(route)); ok {
+		mh.previous = previous.(*messageHandler)
+	}
+	mhs.handlers.Store(join(route), mh)
+	return mh
 }
 
-func (mhs *messageHandlers) delete(route []string) {
-	mhs.handlers.Delete(join(route))
+// mark returns the sequence number of the most recently installed handler.
+func (mhs *messageHandlers) mark() uint64 {
+	mhs.mu.Lock()
+	defer mhs.mu.Unlock()
+	return mhs.seq
+}
+
+// revoke withdraws one handler.
+func (mhs *messageHandlers) revoke(mh *messageHandler) {
+	mhs.mu.Lock()
+	defer mhs.mu.Unlock()
+	mh.revoked = true
+	mhs.settle(mh.route)
+}
+
+// revokeUpTo withdraws every handler of the route installed up to the mark.
+func (mhs *messageHandlers) revokeUpTo(route []string, mark uint64) {
+	mhs.mu.Lock()
+	defer mhs.mu.Unlock()
+	current, ok := mhs.handlers.Load(join(route))
+	if !ok {
+		return
+	}
+	for mh := current.(*messageHandler); mh != nil; mh = mh.previous {
+		if mh.seq <= mark {
+			mh.revoked = true
+		}
+	}
+	mhs.settle(route)
+}
+
+// settle makes the most recent handler which has not been revoked the
+// handler of the route. You must hold mhs.mu.
+func (mhs *messageHandlers) settle(route []string) {
+	current, ok := mhs.handlers.Load(join(route))
+	if !ok {
+		return
+	}
+	mh := current.(*messageHandler)
+	for mh != nil && mh.revoked {
+		mh = mh.previous
+	}
+	if mh == nil {
+		mhs.handlers.Delete(join(route))
+	} else if mh != current.(*messageHandler) {
+		mhs.handlers.Store(join(route), mh)
+	}
 }
 
 func (mhs *messageHandlers) handle(client *Client, topic string, pubPkt *pkts1.Publish) {
